@@ -66,7 +66,7 @@ impl Drop for LiveGuard {
             r.push(RecKind::ThreadEnd);
         });
         if !std::thread::panicking() {
-            crate::driver::maybe_notify();
+            crate::driver::notify_if_waiting();
         }
     }
 }
